@@ -14,12 +14,13 @@ import (
 func init() {
 	register(&propDef{
 		id:      "C03",
-		explain: "Structural necessary conditions of 'what the server writes is framed as its own header says': (R1) the fixed-size body writer hands the body stream to the copy primitive only through a bounding writer built from the declared size, and every use of the inner writer inside that type is bounded by (or control-dependent on a comparison with) the remaining count; (R2) on every path of writeBodyFixedSize a nil error is returned only when the copied count was compared equal to the declared size; (R3) every body-emitting call of Response.Write / writeBodyStream is control-dependent on the no-body predicate (SkipBody / 1xx-204-304); (R4) in the serve loop HEAD is tested before the response is written and the response written then has SkipBody set; a timeout response is installed with SkipBody under IsHead() of the timed-out request; (R5) SetContentLength of both header types makes the framing headers exclusive on every path: installing a numeric Content-Length removes Transfer-Encoding, installing chunked clears the Content-Length bytes. (R6) every writeChunk call is either the terminator (a constant-empty argument, after which no further chunk is written in that function) or a data chunk whose length was tested non-zero on the way to the call - an empty data chunk is the last-chunk marker. Not decided: byte-exact agreement with an independent parser, trailers, chunk encoding itself.",
+		explain: "Structural necessary conditions of 'what the server writes is framed as its own header says': (R1) the fixed-size body writer hands the body stream to the copy primitive only through a bounding writer built from the declared size, and every use of the inner writer inside that type is bounded by (or control-dependent on a comparison with) the remaining count; (R2) on every path of writeBodyFixedSize a nil error is returned only when the copied count was compared equal to the declared size; (R3) every body-emitting call of Response.Write / writeBodyStream is control-dependent on the no-body predicate (SkipBody / 1xx-204-304); (R4) in the serve loop HEAD is tested before the response is written and the response written then has SkipBody set; a timeout response is installed with SkipBody under IsHead() of the timed-out request; (R5) SetContentLength of both header types makes the framing headers exclusive on every path: installing a numeric Content-Length removes Transfer-Encoding, installing chunked clears the Content-Length bytes. (R6) every writeChunk call is either the terminator (a constant-empty argument, after which no further chunk is written in that function) or a data chunk whose length was tested non-zero on the way to the call - an empty data chunk is the last-chunk marker. (R7) in the chunk-writing read loop the bytes a Read returned are framed, or n was found zero, before that Read's error ends the loop or the next Read is made. Not decided: byte-exact agreement with an independent parser, trailers, chunk encoding itself.",
 		run: func(p *Prog, r *Report) {
 			runC03Bounded(p, r)
 			runC03SendBody(p, r)
 			runC03Exclusive(p, r)
 			runC03ChunkMarker(p, r)
+			runC03ReadData(p, r)
 			p.serveLoop("C03").report(r, "C03")
 			timeoutProducerRule(p, r, "C03")
 		},
@@ -537,4 +538,91 @@ func runC03ChunkMarker(p *Prog, r *Report) {
 		}
 	}
 	r.Floor("R6", "writeChunk calls", n, 4)
+}
+
+// runC03ReadData (R7): io.Reader allows a Read to return data together with its error (n > 0, err == io.EOF) -
+// net/http bodies, gzip readers and fasthttp's own request stream do. In the chunk-writing loop the n bytes of a
+// Read are framed, or n was found to be zero, before that Read's error is allowed to end the loop: on every path
+// from the Read to the next Read or out of the loop.
+func runC03ReadData(p *Prog, r *Report) {
+	fn := p.Func("writeBodyChunked")
+	wc := p.Func("writeChunk")
+	if fn == nil || wc == nil {
+		r.Undecided("R7", "writeBodyChunked / writeChunk", "not found")
+		return
+	}
+	var read *ssa.Call
+	for _, b := range fn.Blocks {
+		for _, in := range b.Instrs {
+			if c, ok := in.(*ssa.Call); ok && c.Call.IsInvoke() && c.Call.Method.Name() == "Read" && loopHeaderOf(b) != nil {
+				read = c
+			}
+		}
+	}
+	if read == nil {
+		r.Undecided("R7", "writeBodyChunked: Read call inside a loop", "not found")
+		return
+	}
+	var nVal ssa.Value
+	for _, ref := range *read.Referrers() {
+		if ex, ok := ref.(*ssa.Extract); ok && ex.Index == 0 {
+			nVal = ex
+		}
+	}
+	header := loopHeaderOf(read.Block())
+	const (
+		bPending uint64 = 1 << iota // a Read returned and its data has been neither framed nor found empty
+	)
+	n, bad := 0, 0
+	var wit []string
+	var pos token.Pos
+	leave := func(x *Explorer, st *State, at token.Pos) {
+		n++
+		if st.Has(bPending) {
+			bad++
+			if wit == nil {
+				wit = x.Path(st)
+				pos = at
+			}
+		}
+	}
+	x := NewExplorer(p, fn, Hooks{
+		Instr: func(x *Explorer, st *State, in ssa.Instruction) {
+			if in == ssa.Instruction(read) {
+				if st.Has(bPending) {
+					leave(x, st, in.Pos())
+				}
+				st.Set(bPending)
+				return
+			}
+			if c, ok := in.(ssa.CallInstruction); ok && c.Common().StaticCallee() == wc && len(c.Common().Args) == 2 {
+				if sl, ok := c.Common().Args[1].(*ssa.Slice); ok && sl.High == nVal {
+					st.Clear(bPending)
+				}
+			}
+		},
+		Branch: func(x *Explorer, st *State, cond ssa.Value, taken bool, from *ssa.BasicBlock) {
+			pol, v := stripNot(cond)
+			bo, ok := v.(*ssa.BinOp)
+			if !ok || bo.X != nVal {
+				return
+			}
+			if k, isK := constInt(bo.Y); isK && k == 0 {
+				truth := taken == pol
+				if (bo.Op == token.EQL && truth) || (bo.Op == token.GTR && !truth) || (bo.Op == token.NEQ && !truth) || (bo.Op == token.LEQ && truth) {
+					st.Clear(bPending) // nothing was read
+				}
+			}
+		},
+		Edge: func(x *Explorer, st *State, from, to *ssa.BasicBlock) {
+			if header != nil && inLoop(header, from) && !inLoop(header, to) {
+				leave(x, st, from.Instrs[len(from.Instrs)-1].Pos())
+				st.Clear(bPending)
+			}
+		},
+	})
+	x.Filter = noIntFilter
+	x.Run(nil)
+	r.Check("R7", "writeBodyChunked: the bytes a Read returned are framed (or n was found zero) before its error ends the loop or the next Read is made", bad == 0 && n > 0 && !x.Aborted && nVal != nil, p.Pos(pos),
+		fmt.Sprintf("%d of %d explored ends of a Read's life drop its data: a reader that returns its last bytes together with io.EOF (a net/http body, a gzip reader, the request stream) has them left out of the chunked body", bad, n), wit...)
 }
